@@ -75,11 +75,11 @@ impl Property for C17 {
         let own = real.id.unwrap();
         let node = real.addr;
         // routing table of various shapes: contacts at chosen prefix depths
-        let n_stubs = *rng.pick(&[0usize, 1, 8, 20, 40]);
+        let n_stubs = *rng.pick(&[0usize, 1, 8, 20, 40, 80, 160]);
         for i in 0..n_stubs {
             let depth = rng.below(12) as usize;
             let s = StubCfg::honest(stub_addr(v6, i), id_with_lcp(&own, depth, &mut rng));
-            if i < 8 {
+            if i < 8 || rng.chance(1, 2) {
                 real.nodes.push(s.addr);
             }
             sc.world.stubs.push(s);
@@ -149,7 +149,7 @@ impl Property for C17 {
         v
     }
     fn rule(&self) -> &'static str {
-        "one real serving node with 0..40 stub contacts at chosen prefix depths; 0..520 valid announces for one info-hash (IPv4, IPv6 or mixed); get_peers and find_node probes with every want combination, both requester families, transaction ids of 0..32 bytes; plus the node's own bootstrap, refresh and announcing-search traffic; the length of every buffer passed to the socket is checked. non-trivial = the node sent more than two datagrams; distinct = distinct order digests"
+        "one real serving node with 0..160 stub contacts at chosen prefix depths; 0..520 valid announces for one info-hash (IPv4, IPv6 or mixed); get_peers and find_node probes with every want combination, both requester families, transaction ids of 0..32 bytes; plus the node's own bootstrap, refresh and announcing-search traffic; the length of every buffer passed to the socket is checked. non-trivial = the node sent more than two datagrams; distinct = distinct order digests"
     }
     fn assumptions(&self) -> Vec<&'static str> {
         vec!["known finding (open): a get_peers reply whose excess over 1500 bytes is accounted for by its values list is reported as KNOWN-FINDING, every other oversize datagram as VIOLATION"]
